@@ -91,7 +91,7 @@ theorem mpsim_reserve (env : Env) (x : S) (n : Nat) (hp : PL.Inv x.d.g x.d.pl) (
 
 /-- `save` is `saveString` on the never-failing twin, up to the allocator state -/
 theorem mpsim_save_eq (x : S) (bytes : List Byte) :
-    ∃ d1, (JDD.sim_nofail x.d).saveString bytes = (some (save x bytes).1, d1) ∧
+    ∃ d1, (JDD.sim_nofail x.d bytes.length).saveString bytes = (some (save x bytes).1, d1) ∧
       (save x bytes).2.d.strings = d1.strings ∧ (save x bytes).2.d.nextNode = d1.nextNode ∧
       (save x bytes).2.d.g = x.d.g ∧ (save x bytes).2.d.root = x.d.root ∧ (save x bytes).2.d.cells = x.d.cells ∧
       (save x bytes).2.d.overflowed = x.d.overflowed ∧
@@ -103,7 +103,7 @@ theorem mpsim_save_eq (x : S) (bytes : List Byte) :
     have e : save x bytes = (n.id, { x with d := { x.d with strings := (x.d.strings.map (fun y => if y.id == n.id then { y with refs := y.refs + 1 } else y)) } }) := by
       unfold save; rw [hf]
     rw [e]
-    exact ⟨_, saveString_found (d := JDD.sim_nofail x.d) hf, rfl, rfl, rfl, rfl, rfl, rfl, rfl, rfl, rfl, rfl, rfl, Or.inl rfl⟩
+    exact ⟨_, saveString_found (d := JDD.sim_nofail x.d bytes.length) hf, rfl, rfl, rfl, rfl, rfl, rfl, rfl, rfl, rfl, rfl, rfl, Or.inl rfl⟩
   | none =>
     have e : ∃ pl',
         save x bytes = (x.d.nextNode, { x with d := { x.d with
@@ -120,7 +120,7 @@ theorem mpsim_save_eq (x : S) (bytes : List Byte) :
         · rw [if_neg hc]; exact ⟨_, rfl, rfl, rfl, rfl, rfl⟩
     obtain ⟨pl', e, p1, p2, p3, p4⟩ := e
     rw [e]
-    have hs := saveString_new (d := JDD.sim_nofail x.d) hf
+    have hs := saveString_short (d := JDD.sim_nofail x.d bytes.length) hf (Nat.le_refl _)
     rw [JDD.sim_nofail_failsAt, if_neg (by simp)] at hs
     exact ⟨_, hs, rfl, rfl, rfl, rfl, rfl, rfl, p1, p2, p3, p4, rfl, Or.inr rfl⟩
 
@@ -131,7 +131,7 @@ theorem mpsim_save (env : Env) (x : S) (bytes : List Byte) (hp : PL.Inv x.d.g x.
     (save x bytes).2.d.overflowed = x.d.overflowed ∧ (mpsim_BOK env x.b → mpsim_BOK env (save x bytes).2.b) := by
   obtain ⟨d1, h, e1, e2, e3, e4, e5, e6, e7, e8, e9, e10, e11, e12⟩ := mpsim_save_eq x bytes
   obtain ⟨rs0, hrs0⟩ := hs0
-  have hN : ∀ rs, StrOK x.d rs → StrOK (JDD.sim_nofail x.d) rs := fun rs hs => StrOK_congr (d := x.d) rfl rfl hs
+  have hN : ∀ rs, StrOK x.d rs → StrOK (JDD.sim_nofail x.d bytes.length) rs := fun rs hs => StrOK_congr (d := x.d) rfl rfl hs
   obtain ⟨_, _, _, hb, hkeep, _⟩ := saveString_spec (hN _ hrs0).ids_nodup (hN _ hrs0).ids_lt h
   have hc : ∀ j, (save x bytes).2.d.cell j = x.d.cell j := fun j => by simp only [Doc.cell, e5]
   have hstr : ∀ rs, StrOK x.d rs → StrOK (save x bytes).2.d ((save x bytes).1 :: rs) := fun rs hs =>
@@ -139,7 +139,7 @@ theorem mpsim_save (env : Env) (x : S) (bytes : List Byte) (hp : PL.Inv x.d.g x.
   have hbytes : ∀ m, (∃ y ∈ x.d.strings, y.id = m) → (save x bytes).2.d.strBytes m = x.d.strBytes m := by
     intro m hm
     rw [strBytes_of_strings e1, hkeep m hm]
-    exact strBytes_of_strings (d := x.d) (d' := JDD.sim_nofail x.d) rfl m
+    exact strBytes_of_strings (d := x.d) (d' := JDD.sim_nofail x.d bytes.length) rfl m
   refine ⟨e11, ⟨e3, fun _ => e4, fun j _ _ => hc j, by rw [e3]; exact hp.congr e7 e9 e10 e8,
     fun j hj => by rw [e3, live_congr e7 e8]; exact hj,
     fun rs hs => ⟨StrOK_weaken (a := [(save x bytes).1]) (hstr rs hs), strBytes_of_present hbytes hs⟩,
